@@ -176,6 +176,7 @@ class Harness:
         self.tid_of_idx = {}
         self.idx_of_tid = {}
         self.enqueued = 0
+        self.all_tids = []
         self.cancels_left = case.get("cancels", 0)
         self.cancel_log = []
         self.exc_log = []
@@ -188,6 +189,7 @@ class Harness:
         self.model = {}
         self.finished = None
         self.responses = []
+        self.probe = None
 
     def log(self, kind, **kw):
         self.events.append(dict(kind=kind, q=self.qindex, t=round(self.loop.time(), 3), **kw))
@@ -235,7 +237,26 @@ class Harness:
     async def _main(self):
         local = self.local
         self.finished = self.loop.create_future()
-        self.scheduler = local.Scheduler(self.workdir, self.case["max_cores"], task_states=RecordingDict(self))
+        h = self
+
+        class RecScheduler(local.Scheduler):
+            async def enqueue_task(self, name, script, working_dir, time_limit, deps):
+                tid = await local.Scheduler.enqueue_task(self, name, script, working_dir, time_limit, deps)
+                h.on_enqueued(tid, name, script)
+                return tid
+
+            async def cancel_task(self, tid):
+                if h.case.get("clients"):
+                    try:
+                        st = self.task_states.get(tid)
+                    except TypeError:
+                        st = None
+                    if st is not None:
+                        h.log("cancel", tid=tid, state_at_delivery=st.name)
+                        h.cancel_log.append((tid, st.name, h.qindex))
+                return await local.Scheduler.cancel_task(self, tid)
+
+        self.scheduler = RecScheduler(self.workdir, self.case["max_cores"], task_states=RecordingDict(self))
         self.server = local.Server(self.scheduler)
         await self.finished
 
@@ -247,6 +268,8 @@ class Harness:
     # process factory and signal interception
     async def _spawn(self, script, stdout=None, stderr=None, cwd=None, **kw):
         # which task is spawning?  the script text carries the task index
+        if not isinstance(script, (str, bytes)):
+            raise ValueError("cmd must be a string")
         idx = int(str(script).split(":")[1]) if str(script).startswith("task:") else None
         tid = self.tid_of_idx.get(idx)
         tinfo = self.case["tasks"][idx] if idx is not None else {}
@@ -327,12 +350,15 @@ class Harness:
             return
         cands = self.candidates(timeout)
         if not cands:
+            if self.case.get("clients") and self.probe is None:
+                self.start_probe()
+                return
             self._end()
             return
         ev = self.choose(cands)
         self.apply(ev)
         if self.case.get("bursts") and self.rng.random() < 0.25:
-            more = [c for c in self.candidates(None) if c[0] in ("enqueue", "cancel", "client")]
+            more = [c for c in self.candidates(None) if c[0] in ("enqueue", "cancel") or (c[0] == "client" and c[1] != 0)]
             if more:
                 self.apply(self.rng.choice(more))
 
@@ -413,9 +439,21 @@ class Harness:
         name = "n%d" % idx
         if t.get("log_fail"):
             name = "nodir/n%d" % idx  # log path in a directory that does not exist
-        tid = await self.scheduler.enqueue_task(name=name, script="task:%d:" % idx, working_dir=self.workdir, time_limit=t.get("time_limit"), deps=deps)
-        self.tid_of_idx[idx] = tid
-        self.idx_of_tid[tid] = idx
+        await self.scheduler.enqueue_task(name=name, script="task:%d:" % idx, working_dir=self.workdir, time_limit=t.get("time_limit"), deps=deps)
+
+    def on_enqueued(self, tid, name, script):
+        idx = None
+        for cand in (script, name):
+            if isinstance(cand, str) and cand.startswith("task:"):
+                try:
+                    idx = int(cand.split(":")[1])
+                except ValueError:
+                    pass
+                break
+        self.all_tids.append(tid)
+        if idx is not None and idx not in self.tid_of_idx:
+            self.tid_of_idx[idx] = tid
+            self.idx_of_tid[tid] = idx
         self.log("enqueued", idx=idx, tid=tid)
 
     # ------------------------------------------------------------------
@@ -465,6 +503,22 @@ class Harness:
             if not st["eof"]:
                 st["eof"] = True
                 st["reader"].set_exception(ConnectionResetError("reset by peer")) if step.get("hard") else st["reader"].feed_eof()
+
+    def start_probe(self):
+        """liveness probe: a fresh connection asks for the states, enqueues a task and asks again"""
+        reader = asyncio.StreamReader()
+        st = {"out": b"", "dropped": False}
+        st["writer"] = FakeWriter(st)
+        self.probe = st
+        self.probe_states_before = {k: v.name for k, v in self.scheduler.task_states.items()}
+        self.log("probe")
+        for m in (
+            {"__kind__": "get_task_states"},
+            {"__kind__": "enqueue_task", "name": "probe", "script": 5, "working_dir": self.workdir, "time_limit": None, "deps": []},
+            {"__kind__": "close"},
+        ):
+            reader.feed_data((json.dumps(m) + "\n").encode())
+        st["task"] = self.loop.create_task(self.server.handle_connection(reader, st["writer"]))
 
     def responses_of(self, ci):
         st = self.conns[ci] if ci < len(self.conns) else None
@@ -538,12 +592,18 @@ def replay_model(h):
         k = e["kind"]
         if k == "enqueued":
             tid = e["tid"]
+            if e["idx"] is None:
+                acc[tid] = {"FAILED", "KILLED"}  # accepted request the harness cannot attribute: malformed
+                deps[tid] = []
+                continue
             acc[tid] = {"SUBMITTED"}
             deps[tid] = [h.tid_of_idx[d] for d in case["tasks"][e["idx"]]["deps"] if d in h.tid_of_idx and h.tid_of_idx[d] != tid]
+            if case["tasks"][e["idx"]].get("malformed"):
+                acc[tid] = {"FAILED", "KILLED"}
             propagate()
         elif k == "spawn":
             tid = e["tid"]
-            if tid not in acc:
+            if tid not in acc or e["idx"] is None:
                 continue
             if acc[tid] <= FINAL and acc[tid]:
                 continue  # spawn of a task the model already considers final: flagged by the checks
